@@ -74,3 +74,6 @@ pub mod ser_c09;
 
 #[path = "pub_c06_local.rs"]
 pub mod pub_c06_local;
+
+#[path = "int_c15_ciphers.rs"]
+pub mod int_c15_ciphers;
